@@ -294,7 +294,14 @@ class Interp:
         for k, v in (s.get("custom") or {}).items():
             cust[k] = np.array(v["arr"]) if isinstance(v, dict) else v
         kw.update(cust)
-        r = lib(gv, **kw)
+        # the documented signature gv(sps, R, fs, wavelength, N, **kargs) also takes its reserved arguments by position
+        pos = []
+        if s.get("pos") and ("wavelength" in kw or "N" not in kw):
+            order = ["sps", "R", "fs", "wavelength", "N"]
+            last = max((i for i, nm in enumerate(order) if nm in kw), default=-1)
+            if last >= 0 and all(nm in kw or nm in ("sps", "R", "fs") for nm in order[:last + 1]):
+                pos = [kw.pop(nm, None) for nm in order[:last + 1]]
+        r = lib(gv, *pos, **kw)
         check(r is gv, "configure-does-not-return-gv", "")
         self.custom.update(cust)
         self.stats["reconf"] += 1
@@ -302,7 +309,7 @@ class Interp:
               f"gv({', '.join(f'{a}={b!r}' for a, b in kw.items() if a in ('sps', 'R', 'fs'))}) -> sps={gv.sps} R={gv.R} fs={gv.fs}, expected {exp}")
         if s.get("wavelength") is not None:
             check(gv.wavelength == s["wavelength"], "explicit-values-not-in-force", f"wavelength={gv.wavelength}")
-        self.invariant(f"gv({', '.join(sorted(kw))})")
+        self.invariant(f"gv({len(pos)} positional, {', '.join(sorted(kw))})")
 
     def call(self, s):
         name = s["block"]
@@ -377,7 +384,7 @@ custom_val = st.one_of(st.integers(-5, 5), st.floats(-10, 10, allow_nan=False), 
                        st.lists(st.floats(-1, 1, allow_nan=False), min_size=1, max_size=3).map(lambda v: {"arr": v}))
 s_conf = st.fixed_dictionaries({"op": st.just("configure"), "form": st.sampled_from(["sps_R", "sps_fs", "R_fs", "sps", "R", "fs", "none", "sps_R", "R_fs"]),
                                 "sps": s_sps, "R": s_R, "float_sps": st.booleans(), "wavelength": st.one_of(st.none(), st.none(), st.floats(1260e-9, 1650e-9)),
-                                "N": st.one_of(st.none(), st.none(), st.integers(1, 64)),
+                                "N": st.one_of(st.none(), st.none(), st.integers(1, 64)), "pos": st.booleans(),
                                 "custom": st.one_of(st.none(), st.none(), st.dictionaries(st.sampled_from(["alpha", "beta", "slot_rate", "M", "name", "taps"]), custom_val, max_size=2))})
 s_clean = st.just({"op": "clean"})
 fast_blocks = [b for b in BLOCK_NAMES if b not in SLOW]
